@@ -43,6 +43,13 @@ class Assignment:
 def evaluate(e, asg, env):
     """Value of expression under assignment/env: int, or raises Undecided."""
     e0 = e
+    if isinstance(e, dict) and e.get('k') == 'cast' and e.get('to') in ('signed char', 'char', 'int8_t'):
+        v = evaluate(e['e'], asg, env) & 0xff
+        return v - 256 if v >= 128 else v
+    if isinstance(e, dict) and e.get('k') in ('load', 'stmtexpr') and 'e' in e:
+        return evaluate(e['e'], asg, env)
+    if isinstance(e, dict) and e.get('k') == 'cast':
+        return evaluate(e['e'], asg, env)
     e = strip(e)
     if not isinstance(e, dict):
         raise Undecided(str(e0))
